@@ -168,19 +168,27 @@ func formatGroupByKey(point *measurev1.DataPoint, groupByTagsRefs [][]*logical.T
 				return 0, errors.New("tag index out of range")
 			}
 			tag := point.GetTagFamilies()[tagRef.Spec.TagFamilyIdx].GetTags()[tagRef.Spec.TagIdx]
+			// Every component starts with a kind byte and a string carries its length: a null tag is not the
+			// empty string, and ("a","bc") is not ("ab","c").
 			switch v := tag.GetValue().GetValue().(type) {
 			case *modelv1.TagValue_Str:
-				_, innerErr := hash.Write([]byte(v.Str.GetValue()))
+				str := v.Str.GetValue()
+				_, _ = hash.Write([]byte{1})
+				_, _ = hash.Write(convert.Int64ToBytes(int64(len(str))))
+				_, innerErr := hash.Write([]byte(str))
 				if innerErr != nil {
 					return 0, innerErr
 				}
 			case *modelv1.TagValue_Int:
+				_, _ = hash.Write([]byte{2})
 				_, innerErr := hash.Write(convert.Int64ToBytes(v.Int.GetValue()))
 				if innerErr != nil {
 					return 0, innerErr
 				}
 			case *modelv1.TagValue_IntArray, *modelv1.TagValue_StrArray, *modelv1.TagValue_BinaryData:
 				return 0, errors.New("group-by on array/binary tag is not supported")
+			default:
+				_, _ = hash.Write([]byte{0})
 			}
 		}
 	}
